@@ -1388,6 +1388,14 @@ impl MutableRepo {
                                 dependents.push(store.get_commit_async(target).await);
                             }
                         }
+                        // The parent may have been rewritten more than once, so
+                        // also depend on the commits at the end of the chain of
+                        // rewrites.
+                        for target in self.new_parents(slice::from_ref(parent.id())) {
+                            if to_visit_set.contains(&target) && !visited.contains(&target) {
+                                dependents.push(store.get_commit_async(&target).await);
+                            }
+                        }
                     }
                     if to_visit_set.contains(parent.id()) {
                         dependents.push(Ok(parent));
